@@ -65,7 +65,7 @@ PROPS["C17"] = {
     "assumptions": ["payload identity is pointer identity for tokens; other payload kinds are compared by kind"],
 }
 _TB = _T + " The concurrent path is a hand-written transition system at the granularity of the Go code (wg.Add / send / receive / mutex-protected sections / each ctx.Err() read / each callback return are single steps); mutual exclusion of sync.Mutex, channel FIFO and WaitGroup semantics are assumed Go runtime semantics. The code is driven only along gated schedules (every exec call parked, one released at a time, quiescence recognised from goroutine states) where its whole trace, including the set of calls in flight at every quiescent point, must equal the model's; interleavings inside the library between two callback-free steps cannot be forced without hooks. Trace-level predicates spec_C06..C11 are applied to the implementation's trace and, as a guard, to the model's own trace of the same scenario (a predicate false of the model is reported as a defect of the predicate)."
-_BATCH = dict(ENGINE, timeout=600)
+_BATCH = dict(ENGINE, timeout=1500)
 PROPS["C06"] = {
     "parts": [_BATCH],
     "level_text": "Theorems over ALL schedules of the transition system of runBatchConcurrent on the worker pool (any number of items, workers, queue capacity, budget, all user code): C06_slots_positional - once the submitter is past pool.Wait every one of the n slots is written and slot i is determined by the callback events of item i alone (per-item monitor), so result i is the outcome of item i and of no other for every completion order; C06_post_after_all_settled - Wait is a barrier (nothing queued or running). Correspondence: gated runs over every release-priority permutation for n<=5 (quick) / n<=7 (thorough), c in 1..4, sequential n in 0..64, 6 prep payload shapes, with full-trace equality; spec_C06 (post once and last, items in order, equal length, each slot = outcome of that item's events, never-executed items carry an error) judges the implementation's trace.",
